@@ -109,14 +109,29 @@ func genC05(dir, tier string, seed int64) {
 		if r.Intn(2) == 0 {
 			b = intFloat(r, f64, M)
 		}
-		obs := emitOp(cw, "Conv", attrs, func() []tensor.Tensor {
-			ins := []tensor.Tensor{x.Clone().(tensor.Tensor), k.Clone().(tensor.Tensor)}
-			if b != nil {
-				ins = append(ins, b.Clone().(tensor.Tensor))
+		mk := func(x, k, b tensor.Tensor) func() []tensor.Tensor {
+			return func() []tensor.Tensor {
+				ins := []tensor.Tensor{x.Clone().(tensor.Tensor), k.Clone().(tensor.Tensor)}
+				if b != nil {
+					ins = append(ins, b.Clone().(tensor.Tensor))
+				}
+				return ins
 			}
-			return ins
-		})
-		_ = obs
+		}
+		emitOp(cw, "Conv", attrs, mk(x, k, b))
+		if c%6 == 0 {
+			// a twin: the same attributes and shapes, other values. One Conv instance applied to both
+			// (the instance_reuse observation) must give what a fresh instance gives
+			convReuseTwin = true
+			x2, k2 := intFloat(r, f64, xs...), intFloat(r, f64, kshape...)
+			var b2 tensor.Tensor
+			if b != nil {
+				b2 = intFloat(r, f64, M)
+			}
+			emitOp(cw, "Conv", attrs, mk(x2, k2, b2))
+			convReuseTwin = false
+			c++
+		}
 		count("auto_pad", mode)
 		count("spatial_dims", fmt.Sprint(nsp))
 		if nsp == 2 {
